@@ -308,3 +308,4 @@ PROP = Prop("C08", [
     "reference symbolic differentiator (vh/refs/symbolic.py) is correct; it shares no code with autograd",
     "scalar expression programs plus one family of vector-valued nestings; nesting depth <= 4-5",
 ])
+PROP.reach_functions = ['autograd.tracer:find_top_boxed_args', 'autograd.tracer:trace']
